@@ -479,6 +479,11 @@ def set_of_seq(st, s, et, fn=None, ft=None):
     """{fn(e) for e in s}: fresh set with the two definitional axioms."""
     E = _ex()
     k = z3.Int('k!so')
+    # the same sequence value and the same projection denote the same set: reuse the defined symbol
+    ckey = ('set_of', s.arr.get_id(), s.n.get_id(), id(fn.z.node) if fn is not None else None)
+    cache = st.ghost.setdefault('$setof_cache', {})
+    if ckey in cache:
+        return cache[ckey]
     if fn is None:
         rt = et
         elem = lambda kk: z3.Select(s.arr, kk)
@@ -499,7 +504,8 @@ def set_of_seq(st, s, et, fn=None, ft=None):
     st.assume(z3.ForAll([x], z3.Implies(z3.Select(S, x),
                                         z3.And(0 <= wit(x), wit(x) < s.n, elem(wit(x)) == x)),
                         patterns=[z3.Select(S, x)]))
-    return Val(T.TSetV(rt), S)
+    cache[ckey] = Val(T.TSetV(rt), S)
+    return cache[ckey]
 
 
 # ----------------------------------------------------------------- dicts
@@ -832,7 +838,7 @@ _GLOBAL_FUNCS = ('len', 'isinstance', 'set', 'list', 'dict', 'tuple', 'sorted', 
                  'unchanged', 'index_of', 'str_index', 'subseq', 'substr', 'str_len', 'setv',
                  'union_of', 'same_elems', 'is_fresh', 'seq_map_eq', 'let', 'emp', 'char_at',
                  'is_digit_str', 'str_to_int', 'concat_seq', 'mkseq', 'is_list', 'store', 'dict_has', 'dict_get',
-                 'dict_keys', 'implies_all', 'remove_positions', 'trig', 'same', 'dict_index', 'allocated', 'ncalls', 'call_arg', 'call_result', 'in_timeout_scope', 'nraised', 'str_prefix', 'pure_IO_encrypted_of', 'py_lower', 'substr_after_last', 'py_int_ok', 'py_int_val', 'py_join_seq', 'alloc_ordered', 'str_suffix', 'py_decode')
+                 'dict_keys', 'implies_all', 'remove_positions', 'trig', 'same', 'dict_index', 'allocated', 'ncalls', 'call_arg', 'call_result', 'in_timeout_scope', 'nraised', 'str_prefix', 'pure_IO_encrypted_of', 'py_lower', 'substr_after_last', 'py_int_ok', 'py_int_val', 'py_join_seq', 'alloc_ordered', 'str_suffix', 'py_decode', 'subset')
 
 
 def global_object_val(st, nm):
